@@ -376,6 +376,8 @@ func (mr *memRepo) blobCreate(locked bool, opts ...BlobOpt) (BlobCreator, string
 			ok = false
 		}
 		if ok {
+			// the caller is told that its content is stored: the blob is as recent as one written now (GC grace period)
+			b.m.mod = time.Now()
 			return nil, "", types.ErrBlobExists
 		}
 	}
